@@ -1251,6 +1251,57 @@ HARNESSES += [
 ]
 
 
+# a bounded cache of capacity R that is FULL when the threads start, its
+# oldest entries being exactly the names thread 0 is about to use (served
+# from the cache) while thread 1 brings names never seen before (each one
+# evicts the oldest entry): the stated limit "caches beyond 140 names" moved
+# to 4096 for this one pattern
+_RING_A = ['ring-a-%02d' % i for i in range(24)]
+_RING_TABLE_A = {n: i for i, n in enumerate(_RING_A)}
+_RING_WIRE_A = refcodec.enc_table(_RING_TABLE_A)
+_RING_RUN = itertools.count()
+
+
+def _ring_setup(capacity):
+    def setup():
+        reset_switch()
+        p = lib.pamqp()
+        for n in _RING_A:
+            p.encode.short_string(n)
+        p.encode.field_table(_RING_TABLE_A)
+        p.decode.field_table(_RING_WIRE_A)
+        fill = ['ring-f-%04d' % i for i in range(capacity - len(_RING_A))]
+        for n in fill:
+            p.encode.short_string(n)
+        table = {n: 0 for n in fill}
+        p.decode.field_table(p.encode.field_table(table))
+    return setup
+
+
+def _ring_a(p):
+    return [p.encode.field_table(_RING_TABLE_A).hex(),
+            [p.encode.short_string(n).hex() for n in _RING_A[:6]],
+            c16events.c(p.decode.field_table(_RING_WIRE_A))]
+
+
+def _ring_b(p):
+    run = next(_RING_RUN)
+    names = ['ring-b-%07d-%02d' % (run, i) for i in range(len(_RING_A))]
+    for n in names[:6]:
+        p.encode.short_string(n)
+    wire = p.encode.field_table({n: 1 for n in names})
+    p.decode.field_table(wire)
+    return 'done'
+
+
+HARNESSES += [
+    ('cached names of a full cache of %d || as many never-seen names' % cap, [
+        _call('encode / decode %d cached names' % len(_RING_A), _ring_a),
+        _call('encode / decode %d new names' % len(_RING_A), _ring_b)],
+     1, 1, {'cold': False, 'setup': _ring_setup(cap)})
+    for cap in (64, 128, 256, 512, 1024, 2048, 4096)]
+
+
 def _refused(func):
     def run(p):
         try:
